@@ -53,7 +53,9 @@ MANIFEST = {
             "Store-level allow_custom forwarding is covered by C14's call-site table. Theorem hypotheses not discharged for "
             "the pinned tree: vr_year_pad, vr_ref_flip_unreg, vr_positional_none (all fixed in /repo HEAD; detected per run). "
             "The oracle worker runs under a PYTHONHASHSEED other than the driver's; an exception of the oracle itself is "
-            "reported per case (oracle-could-not-evaluate-the-case), never swallowed.",
+            "reported per case (oracle-could-not-evaluate-the-case), never swallowed. Open known finding "
+            "(known_findings.d/C04.json): a registered toplevel-property-extension given without extension_type sets the flag "
+            "although the strict reparse accepts the text (fix proposed under the C01 id).",
     "technique": "Coq proof over an executable model + correspondence run + property oracle on the implementation",
 }
 
@@ -656,7 +658,11 @@ def check(run):
         "registered one with an object carrying both made beforehand), six sampled sites; unregistered top-level types and bundle members with "
         "extensions of every shape; observable types registered only after they were looked up (parse_observable, parse, "
         "observed-data member) against a type registered up front; observables also through parse_observable; six sampled sites "
-        "for the others; each case under allow_custom False and True plus the strict reparse of the allow-mode "
+        "for the others; custom property names / values of bounded shapes (multi-underscore, keyword-like, non-BMP names; "
+        "falsy but present values; names the other specification version defines); extension keys that are names registered "
+        "in another registry category or version; a custom property in the middle of 10..65 list elements; a registered "
+        "toplevel-property-extension given without extension_type; pre-built members through Bundle(*members); "
+        "each case under allow_custom False, True and not given at all (must equal False) plus the strict reparse of the allow-mode "
         "serialization; non-trivial = the allow-mode or the strict run produced an object or the case carries custom content"
         % per_class)
     have_props = os.path.exists(os.path.join(common.COQ, "Props", "C04.v"))
